@@ -91,6 +91,8 @@ func Pool(fx *Fixtures, keyID string) (map[string]Version, error) {
 		{"D", []Entry{{Key: "rsa2048-b", KID: "ka"}, {Key: "p384-a", KID: "kz"}}},
 		{"E", []Entry{{Key: "p256-b", KID: "kb"}, {Key: "rsa2048-a", KID: "ka"}}},
 		{"F", []Entry{{Key: "p256-b", KID: "kf"}, {Key: "p256-a", KID: "ka"}, {Key: "p384-b", KID: "kq"}}},
+		// key ids that differ in case only are different ids
+		{"G", []Entry{{Key: "p384-b", KID: "KA"}, {Key: "p256-a", KID: "ka"}}},
 	}
 
 	pool := map[string]Version{}
@@ -510,9 +512,9 @@ func planNames(rng *rand.Rand, keyID string, n int) (string, []string) {
 	var valid, invalid []string
 
 	if keyID == "" {
-		valid, invalid = []string{"A", "B", "C", "D", "E", "F"}, []string{"X", "Y", "Z", "W", "W"}
+		valid, invalid = []string{"A", "B", "C", "D", "E", "F", "G"}, []string{"X", "Y", "Z", "W", "W"}
 	} else { // key_id "ka": B has no such key
-		valid, invalid = []string{"A", "C", "D", "E", "F"}, []string{"X", "Y", "Z", "B", "W", "W"}
+		valid, invalid = []string{"A", "C", "D", "E", "F", "G", "G"}, []string{"X", "Y", "Z", "B", "W", "W"}
 	}
 
 	initial := valid[rng.Intn(len(valid))]
